@@ -9,6 +9,7 @@ package main
 
 import (
 	"go/ast"
+	"go/token"
 	"go/types"
 	"strings"
 )
@@ -256,6 +257,47 @@ func (p *Prog) wrapperReturn(fn *Func) []ast.Expr {
 	if !ok || len(ret.Results) == 0 {
 		return nil
 	}
+	// a function with a single return statement at its end whose other statements only define locals:
+	// its results are the returned expressions read in the environment at that return
+	nret := 0
+	ast.Inspect(fn.Decl.Body, func(n ast.Node) bool {
+		switch n.(type) {
+		case *ast.FuncLit:
+			return false
+		case *ast.ReturnStmt:
+			nret++
+		}
+		return true
+	})
+	onlyDefs := nret == 1
+	for _, s := range list[:len(list)-1] {
+		switch x := s.(type) {
+		case *ast.AssignStmt:
+			// straight-line definitions of locals / named results only
+			if x.Tok != token.DEFINE && x.Tok != token.ASSIGN {
+				onlyDefs = false
+			}
+			for _, l := range x.Lhs {
+				if _, isID := l.(*ast.Ident); !isID {
+					onlyDefs = false
+				}
+			}
+		case *ast.DeclStmt:
+		case *ast.ExprStmt, *ast.DeferStmt:
+		default:
+			onlyDefs = false
+		}
+	}
+	if onlyDefs {
+		if r := p.Walk(fn); len(r.undecided) == 0 && len(r.exits) == 1 && r.exits[0].State != nil {
+			p.wrapCache[fn] = ret.Results
+			if p.wrapEnv == nil {
+				p.wrapEnv = map[*Func]*Env{}
+			}
+			p.wrapEnv[fn] = r.exits[0].State.Env
+			return ret.Results
+		}
+	}
 	for _, s := range list[:len(list)-1] {
 		var call *ast.CallExpr
 		switch x := s.(type) {
@@ -319,6 +361,14 @@ func (p *Prog) Unwrap(t Term) (Term, bool) {
 		return t, false
 	}
 	env := &Env{m: map[types.Object]*Def{}}
+	if we := p.wrapEnv[fn]; we != nil {
+		// the wrapper's own locals (defined before its single return); bindings of another call site are dropped
+		for k, v := range we.m {
+			if v != nil && !v.Param {
+				env.m[k] = v
+			}
+		}
+	}
 	bind := func(id *ast.Ident, arg ast.Expr) {
 		if id == nil || arg == nil || id.Name == "_" {
 			return
